@@ -918,8 +918,17 @@ def check_config(ctx, cfg, rule, res, tag):
     ok_rows = np.all(finite, axis=1)
     # ---- forward vs reverse
     dfr = rel_dev(np.where(finite, Jr, 0.0), np.where(finite, Jf, 0.0), y, s, allow)
+    # standard deviations that are exactly zero in exact arithmetic (noise-free observation of a coefficient, damp = 0) come
+    # out as rounding noise ~1e-18; so do their derivatives in either mode: such rows are not compared (thorough-tier false
+    # alarm: both modes returned entries of size 1e-17 that differ by 5e-17)
+    std_rows = [r for r, (n, _) in enumerate(rows) if n.startswith("std")]
+    std_top = float(np.max(np.abs(y[std_rows]))) if std_rows else 0.0
+    noise_row = np.array([(n.startswith("std") and abs(float(y[r])) <= 1e-9 * std_top) for r, (n, _) in enumerate(rows)])
+    if np.any(noise_row & ok_rows):
+        ctx.skipped["standard deviation at rounding level (exactly zero in exact arithmetic): forward-vs-reverse not compared for this output"] = ctx.skipped.get(
+            "standard deviation at rounding level (exactly zero in exact arithmetic): forward-vs-reverse not compared for this output", 0) + int(np.sum(noise_row & ok_rows))
     for name in {n for n, _ in rows}:
-        idx = [r for r, (n, _) in enumerate(rows) if n == name and ok_rows[r]]
+        idx = [r for r, (n, _) in enumerate(rows) if n == name and ok_rows[r] and not noise_row[r]]
         if idx:
             ctx.dev(f"fwd-vs-rev.{name}", float(np.max(dfr[idx])), TOL_FR, case=dict(case, output=name), sig=f"grad:forward-vs-reverse:{QUANT[name]}",
                     what=f"jacfwd and jacrev of {name} differ by {float(np.max(dfr[idx])):.2e} (relative)")
